@@ -19,6 +19,12 @@ CellsS(me)   == [kind |-> "cells", nv |-> 1, v |-> <<>>, map |-> <<>>, a |-> Z3,
 CellsV(me, map) == [kind |-> "cells", nv |-> 3, v |-> <<>>, map |-> map, a |-> Z3, b |-> 0,
                  src |-> MkArr(me.n, LAMBDA s : <<Base(s), -(Base(s) + 300), 2 * Base(s) + 600>>)]
 
+Small(s)     == ((s[1] + 2 * s[2] + 3 * s[3] + s[1] * s[2] + s[2] * s[3] * s[1]) % 17) - 8
+SmallS(me)   == [kind |-> "cells", nv |-> 1, v |-> <<>>, map |-> <<>>, a |-> Z3, b |-> 0,
+                 src |-> MkArr(me.n, LAMBDA s : <<Small(s)>>)]
+SmallV(me, map) == [kind |-> "cells", nv |-> 3, v |-> <<>>, map |-> map, a |-> Z3, b |-> 0,
+                 src |-> MkArr(me.n, LAMBDA s : <<Small(s), 1 - Small(s), ((Small(s) * Small(s)) % 7) - 3>>)]
+SmallCfg(me) == {<<me, SmallS(me)>>, <<me, SmallV(me, <<2, 3, 1>>)>>}
 Good(me) == {<<me, Vec(<<1, 2, 3>>, <<1, 2, 3>>)>>,
              <<me, Vec(<<2, -1, 3>>, <<2, 3, 1>>)>>,
              <<me, Aff(<<2, -1, 1>>, 3)>>}
@@ -42,15 +48,16 @@ Bad == {<<MeshA, Vec(<<1, 2>>, <<1, 2>>)>>,
 
 Configs_quick    == {<<MeshA, Vec(<<1, 2, 3>>, <<1, 2, 3>>)>>, <<MeshA, Aff(<<2, -1, 1>>, 3)>>,
                       <<MeshB, Vec(<<2, -1, 3>>, <<2, 3, 1>>)>>, <<MeshB, Aff(<<-1, 2, 2>>, -4)>>}
-                    \cup CellCfg(MeshA) \cup Bad
+                    \cup CellCfg(MeshA) \cup SmallCfg(MeshC) \cup Bad
 Configs_thorough == Good(MeshA) \cup Good(MeshB) \cup GoodMore(MeshC)
-                    \cup CellCfg(MeshA) \cup CellCfg(MeshC) \cup Bad
+                    \cup CellCfg(MeshA) \cup SmallCfg(MeshC) \cup SmallCfg(MeshA) \cup Bad
 Gens_quick    == {"qx", "qz", "px", "pz", "ny", "tz"}
-Gens_thorough == {"qx", "qy", "qz", "px", "py", "pz", "nx", "ry", "tz"}
+Gens_thorough == {"qx", "qz", "px", "py", "pz", "nx", "tz"}
+Gens3_all     == {"qx", "pz", "py", "nx"}
 AllGens == {"qx", "qy", "qz", "hx", "hy", "hz", "px", "py", "pz", "nx", "ny", "nz", "rx", "ry", "rz", "tx", "ty", "tz"}
 (* the generator table is handed to the harness (how to *call* rotate for a generator) *)
 ASSUME PrintT(<<"GENS", [g \in AllGens |-> [spec |-> GenSpec(g), rot |-> GenRot(g)]]>>)
-PostGens_all  == {"pz", "qx"}
+PostGens_all  == {"pz"}
 TNSet_quick    == {<<4, 5, 4>>}
 TNSet_thorough == {<<6, 5, 4>>, <<4, 4, 4>>}
 =============================================================================
